@@ -26,6 +26,7 @@
 #include <algorithm>
 #include <cinttypes>
 #include <cstring>
+#include <exception>
 #include <fcntl.h>
 #include <fstream>
 #include <map>
@@ -349,6 +350,23 @@ inline void death_cb() {
     }
 }
 
+// Holder for the library objects of a stateful case. When a failure is being reported (exception in flight) the
+// objects may be in a corrupted state whose destructor would crash and hide the report: they are leaked on purpose
+// (the process exits through _exit after a failure, so the leak is never reported).
+template <class W>
+struct Leaky {
+    W *w;
+    Leaky() : w(new W) {}
+    ~Leaky() {
+        if (std::uncaught_exceptions() == 0) {
+            delete w;
+        }
+    }
+    W *operator->() { return w; }
+    Leaky(const Leaky &)            = delete;
+    Leaky &operator=(const Leaky &) = delete;
+};
+
 enum class Status { Pass, Fail, Known, Discarded };
 
 // Runs one case: bookkeeping, ledger, failure capture. Never throws.
@@ -511,7 +529,8 @@ int run_main(int argc, char **argv) {
         ctx.write_stats();
         if (st == Status::Fail) {
             printf("FAIL class=%s msg=%s\n", ctx.fail_cls.c_str(), ctx.fail_msg.c_str());
-            return 1;
+            fflush(stdout);
+            _exit(1);
         }
         if (st == Status::Known) {
             printf("KNOWN class=%s\n", ctx.known_hits.begin()->first.c_str());
@@ -559,7 +578,9 @@ int run_main(int argc, char **argv) {
     ctx.write_stats();
     if (ctx.failed) {
         printf("FAIL class=%s msg=%s\n", ctx.fail_cls.c_str(), ctx.fail_msg.c_str());
-        return 1;
+        fflush(stdout);
+        fflush(stderr);
+        _exit(1); // objects of failing cases may have been leaked on purpose (see Leaky)
     }
     return 0;
 }
